@@ -89,9 +89,11 @@ fn zero(t: &Unifiable) -> Unifiable { t.clone() }
 
 pub struct Gen<'a> { pub r: &'a mut Rng, pub depth: usize }
 
-// (the last five: atoms made only of numerals that are not ASCII digits, seeded change C19r9: `char::is_numeric` as the digit test)
-const ATOMS: [&str; 18] = ["a", "b", "abc", "Hello World", "x1", "noun_phrase", "Zoë", "über", "10:30-11:00", "3:2", "re-read", "todo: re-read", "a:b-c",
-                           "２０２３", "½", "①", "Ⅳ", "٣"];
+// (the last four: atoms made only of numerals that are not ASCII digits, seeded change C19r9: `char::is_numeric` as the digit test;
+//  none of them is alphabetic — a Roman numeral such as U+2163 is, and `$` + an alphabetic character outside Latin / Greek /
+//  Cyrillic is a variable for the implementation but not for the model's driver, whose table of letters stops there: DESIGN 7)
+const ATOMS: [&str; 17] = ["a", "b", "abc", "Hello World", "x1", "noun_phrase", "Zoë", "über", "10:30-11:00", "3:2", "re-read", "todo: re-read", "a:b-c",
+                           "２０２３", "½", "①", "٣"];
 const VARS: [&str; 5] = ["$X", "$Y", "$Z", "$Head", "$T"];
 
 impl<'a> Gen<'a> {
